@@ -121,16 +121,15 @@ func H_C01_stdio_client_id() {
 		obj, _ := verifObj(doc)
 		if id, hasID := obj["id"]; hasID {
 			if withDecoy {
-				out.push(c01Answer(other, "not-yours"))
+				out.push(append(c01Answer(other, "not-yours"), '\n'))
 			}
-			out.push(c01Answer(id, "yours"))
+			out.push(append(c01Answer(id, "yours"), '\n'))
 		}
 	}
 	t.process = &exec.Cmd{}
 	t.stdin = in
 	t.stdout = out
 	t.encoder = json.NewEncoder(in)
-	t.decoder = json.NewDecoder(out)
 	go t.readLoop()
 	raw, err := t.sendRequest(context.Background(), &JSONRPCRequest{JSONRPC: "2.0", ID: n, Request: Request{Method: "tools/call"},
 		Params: map[string]interface{}{"name": "t"}})
